@@ -632,6 +632,21 @@ func TestC02(t *testing.T) {
 	st := vstat.New("C02")
 	defer finish(t, st)
 	rapidProp(t, st, "ceremonies", perShard(pick(160, 4000)), 1, c02Gen, func(p c02Plan) *viol { return c02Run(t, st, p) })
+	// the polynomial a hot node retains after a re-initialisation is the round's own, also when the dump holds two
+	// overlapping rounds of different participant sets (the procedure and oracle of C20, dumps with overlapping rounds only)
+	rapidProp(t, st, "reinit-overlap", perShard(pick(16, 400)), 6,
+		func(rt *rapid.T) c20Plan {
+			nt := rapid.SampledFrom([][2]int{{3, 2}, {3, 3}, {4, 2}, {4, 3}}).Draw(rt, "nt")
+			return c20Plan{N: nt[0], T: nt[1], Adapt014: rapid.IntRange(0, 3).Draw(rt, "adapt") == 0, Proposer: rapid.IntRange(0, nt[0]-1).Draw(rt, "proposer"),
+				Overlap: true, Restart: rapid.Bool().Draw(rt, "restartAfter")}
+		},
+		func(p c20Plan) *viol {
+			v := c20Run(t, st, p)
+			if v != nil && v.Key != "harness" {
+				v.Key = "after-reinit-from-overlapping-rounds:" + v.Key
+			}
+			return v
+		})
 
 	// every (step, database entry) storage fault on one machine, small configurations
 	t.Run("storage-faults", func(t *testing.T) {
